@@ -19,30 +19,31 @@ open GocoinV GocoinV.NetParse
 /-- CENTRAL. For every command and every payload within the per-command size limit of
     core.go maxmsgsize (regenerated from the source), the parsing layer of the handler Run
     dispatches to does not panic, holds no lock when it returns, and runs at most
-    |payload| + 131073 loop iterations (1·|pl| + b; the constant is the two 16-bit counts a
-    cmpctblock may announce). `E` supplies what the parser asks of its surroundings; the only
+    |payload| + 262141 loop iterations (1·|pl| + b; the constant is cmpctblock's: 1 + scnt + pcnt for the
+    short-id and prefilled loops plus pcnt + scnt for the second pass over col.Txs, each count at
+    most 65535 because its CompactSize may take at most 3 bytes: 1 + 2·(65535 + 65535)). `E` supplies what the parser asks of its surroundings; the only
     assumption is that the transaction-size function never reports more bytes than it was given. -/
 theorem handler_total (E : Env) (hts : ∀ b, E.txSize b ≤ b.length) (cmd : String) (pl : Bytes)
     (hl : pl.length ≤ Gen.NetFacts.maxMsgSize cmd) :
     (parse E cmd pl).out.isPanic = false ∧ (parse E cmd pl).locks = [] ∧
-      (parse E cmd pl).steps ≤ pl.length + 131073 := by
+      (parse E cmd pl).steps ≤ pl.length + 262141 := by
   have := maxMsgSize_le cmd
   exact parse_total E hts cmd pl (by omega)
 
 example : ∃ E : Env, ∀ b, E.txSize b ≤ b.length :=
-  ⟨⟨fun _ => 0, fun _ => none, none, false, false⟩, fun _ => Nat.zero_le _⟩
+  ⟨⟨fun _ => 0, fun _ => none, none, false, false, none, false⟩, fun _ => Nat.zero_le _⟩
 
 /-- the same with the transaction-size function of C09's wire model (lib/btc TxSize after its
     `fix:`), for which the assumption is proved: no hypothesis left but the size limit. -/
-theorem handler_total_wire (ntx : Option Nat) (a b : Bool) (newTx : Bytes → Option (Nat × Nat)) (cmd : String) (pl : Bytes)
+theorem handler_total_wire (ntx pend : Option Nat) (a b t : Bool) (newTx : Bytes → Option (Nat × Nat)) (cmd : String) (pl : Bytes)
     (hl : pl.length ≤ Gen.NetFacts.maxMsgSize cmd) :
-    let E : Env := ⟨Wire.txSize, newTx, ntx, a, b⟩
+    let E : Env := ⟨Wire.txSize, newTx, ntx, a, b, pend, t⟩
     (parse E cmd pl).out.isPanic = false ∧ (parse E cmd pl).locks = [] ∧
-      (parse E cmd pl).steps ≤ pl.length + 131073 :=
-  handler_total ⟨Wire.txSize, newTx, ntx, a, b⟩ wire_txSize_le cmd pl hl
+      (parse E cmd pl).steps ≤ pl.length + 262141 :=
+  handler_total ⟨Wire.txSize, newTx, ntx, a, b, pend, t⟩ wire_txSize_le cmd pl hl
 
 /-- non-vacuity: a well-formed inv of one entry is within the limit and is parsed (not merely rejected) -/
-example : (parse ⟨Wire.txSize, fun _ => none, none, false, false⟩ "inv" ([1, 2, 0, 0, 0] ++ List.replicate 32 7)).out.isPanic = false ∧
+example : (parse ⟨Wire.txSize, fun _ => none, none, false, false, none, false⟩ "inv" ([1, 2, 0, 0, 0] ++ List.replicate 32 7)).out.isPanic = false ∧
     (([1, 2, 0, 0, 0] ++ List.replicate 32 7 : Bytes).length ≤ Gen.NetFacts.maxMsgSize "inv") := by decide +kernel
 
 /-- FetchMessage (header, length limit, encrypted flag, checksum) never panics and holds no lock at
@@ -56,13 +57,29 @@ theorem version_total (pl : Bytes) (hl : pl.length < 2^62) :
     (handleVersion pl).out.isPanic = false ∧ (handleVersion pl).locks = [] :=
   (handleVersion_total pl hl).1
 
-example : ∃ pl : Bytes, pl.length < 2^62 := ⟨[], by decide⟩
+/-- a 94-byte version message: protocol 70015, services NETWORK|SEGWIT|NETWORK_LIMITED, a non-zero nonce,
+    the agent string "/test:1/", height 200000 and the relay byte -/
+def wVersionOk : Bytes :=
+  [0x7f, 0x11, 0x01, 0x00] ++ [0x09, 0x04, 0, 0, 0, 0, 0, 0] ++ List.replicate 60 0 ++ [1, 2, 3, 4, 5, 6, 7, 8] ++
+  [8, 0x2f, 0x74, 0x65, 0x73, 0x74, 0x3a, 0x31, 0x2f] ++ [0x40, 0x0d, 0x03, 0x00] ++ [1]
+
+/-- non-vacuity: that payload satisfies the hypothesis, runs through all three optional fields
+    (agent, height, relay) and is ACCEPTED with the fields parsed -/
+example : wVersionOk.length = 94 ∧ wVersionOk.length < 2^62 ∧
+    (handleVersion wVersionOk).out.accepted =
+      some ("version", [70015, 1033, 0, 0, 200000, 1, 0], [[1, 2, 3, 4, 5, 6, 7, 8], [0x2f, 0x74, 0x65, 0x73, 0x74, 0x3a, 0x31, 0x2f]]) := by
+  decide +kernel
 
 /-- ProcessInv, current guard: total, and the loop runs exactly the announced number of entries
     (steps ≤ |pl| + 1). -/
 theorem inv_total (pl : Bytes) (hl : pl.length < 2^62) :
     (processInv pl).out.isPanic = false ∧ (processInv pl).locks = [] ∧ (processInv pl).steps ≤ pl.length + 1 :=
   ⟨(processInv_total pl hl).1.1, (processInv_total pl hl).1.2, (processInv_total pl hl).2⟩
+
+/-- non-vacuity: a one-entry inv satisfies the hypothesis and is accepted after one iteration -/
+example : (([1, 2, 0, 0, 0] ++ List.replicate 32 7 : Bytes).length < 2^62) ∧
+    (processInv ([1, 2, 0, 0, 0] ++ List.replicate 32 7)).out.accepted = some ("inv", [1], [[2, 0, 0, 0] ++ List.replicate 32 7]) ∧
+    (processInv ([1, 2, 0, 0, 0] ++ List.replicate 32 7)).steps = 2 := by decide +kernel
 
 /-- ProcessGetBlockTxn, current (unsigned) index check: total for every block size and payload; the
     differential-index loop terminates within the unread bytes. -/
@@ -71,10 +88,68 @@ theorem getblocktxn_total (ntx : Option Nat) (pl : Bytes) :
       (processGetBlockTxn ntx pl).steps ≤ pl.length + 2 :=
   ⟨(processGetBlockTxn_total ntx pl).1.1, (processGetBlockTxn_total ntx pl).1.2, (processGetBlockTxn_total ntx pl).2⟩
 
-/-- ProcessCmpctBlock (short ids, prefilled transactions), current index check: total. -/
+/-- ProcessCmpctBlock - short-id loop, prefilled loop AND the second pass over col.Txs that reads the short
+    ids back from the payload under txpool.TxMutex -, current index check: total, no lock left, at most
+    1 + 2·(65535 + 65535) iterations. -/
 theorem cmpctblock_total (txSize : Bytes → Nat) (hts : ∀ b, txSize b ≤ b.length) (pl : Bytes) (hl : pl.length < 2^62) :
-    (processCmpctBlock txSize pl).out.isPanic = false ∧ (processCmpctBlock txSize pl).locks = [] :=
-  (processCmpctBlock_total txSize hts pl hl).1
+    (processCmpctBlock txSize pl).out.isPanic = false ∧ (processCmpctBlock txSize pl).locks = [] ∧
+      (processCmpctBlock txSize pl).steps ≤ 262141 :=
+  ⟨(processCmpctBlock_total txSize hts pl hl).1.1, (processCmpctBlock_total txSize hts pl hl).1.2,
+   (processCmpctBlock_total txSize hts pl hl).2⟩
+
+def tenOrNothing (b : Bytes) : Nat := if 10 ≤ b.length then 10 else 0
+
+/-- a cmpctblock with two short ids and one prefilled transaction at index 1 (slots: sid, prefilled, sid) -/
+def wCmpctOk : Bytes :=
+  List.replicate 88 0 ++ [2] ++ [1, 1, 1, 1, 1, 1] ++ [2, 2, 2, 2, 2, 2] ++ [1] ++ [1] ++ List.replicate 10 9
+
+/-- non-vacuity: on that payload all three loops run to the end (1 + 2 + 1 + 3 steps) and it is accepted -/
+example : (processCmpctBlock tenOrNothing wCmpctOk).out.accepted = some ("cmpctblock", [2, 1, 1, 10], []) ∧
+    (processCmpctBlock tenOrNothing wCmpctOk).steps = 7 ∧ wCmpctOk.length < 2^62 ∧
+    (∀ b, tenOrNothing b ≤ b.length) := by
+  refine ⟨by decide +kernel, by decide +kernel, by decide +kernel, ?_⟩
+  intro b; unfold tenOrNothing; split <;> omega
+
+/-- UNREACHABILITY of cblk.go's `panic("Tx idx … is missing")` (whitelisted in the lock scan,
+    NetParseLocks.panicUnreachable). The second pass as such: from the state the first loop leaves -
+    the map `seen` holds every short id of pl[base : base+6·scnt], that region lies inside the payload -
+    and with at most `scnt` slots of col.Txs not prefilled, neither the read-back slice
+    `pl[shortidx_idx:shortidx_idx+6]` nor the lookup can fail, so txpool.TxMutex is released. (That
+    ProcessCmpctBlock reaches the second pass in exactly such a state - prefilled indices strictly
+    increasing and below the slot count, hence exactly scnt free slots - is part of `cmpctblock_total`.) -/
+theorem cmpctblock_panic_unreachable (pl : Bytes) (hl : pl.length < 2^62) (seen : List Bytes) (base : Int) (scnt : Nat)
+    (h0 : 0 ≤ base) (hin : base + 6 * (scnt : Int) ≤ pl.length)
+    (hseen : ∀ j : Nat, j < scnt → sub pl (base + 6 * (j : Int)) (base + 6 * (j : Int) + 6) ∈ seen)
+    (slots : List Bool) (hc : slots.count false ≤ scnt) (st : Nat) :
+    (secondPass pl pl.length seen slots base st).out.isPanic = false ∧
+      (secondPass pl pl.length seen slots base st).locks = [] ∧
+      (secondPass pl pl.length seen slots base st).steps ≤ st + slots.length := by
+  have := secondPass_good pl pl.length (by omega) seen base scnt h0 hin
+    (fun j hj a ha => by subst ha; exact hseen j hj) slots 0 base st (by omega) (by omega)
+  exact ⟨this.1.1, this.1.2, this.2⟩
+
+/-- non-vacuity of the hypotheses, and the panic site is live in the model: with the map the first loop
+    builds the pass succeeds, with an empty map the very same pass panics WITH TxMutex HELD -/
+example :
+    let pl : Bytes := [1, 1, 1, 1, 1, 1, 2, 2, 2, 2, 2, 2]
+    (∀ j : Nat, j < 2 → sub pl (0 + 6 * (j : Int)) (0 + 6 * (j : Int) + 6) ∈ [[2, 2, 2, 2, 2, 2], [1, 1, 1, 1, 1, 1]]) ∧
+    (secondPass pl 12 [[2, 2, 2, 2, 2, 2], [1, 1, 1, 1, 1, 1]] [false, true, false] 0 1).out.accepted = some ("cmpctblock", [], []) ∧
+    (secondPass pl 12 [] [false, true, false] 0 1).out.panicSite = some "ProcessCmpctBlock:Tx idx missing" ∧
+    (secondPass pl 12 [] [false, true, false] 0 1).locks = [Lock.tx] := by
+  refine ⟨?_, by decide +kernel, by decide +kernel, by decide +kernel⟩
+  intro j hj
+  match j, hj with
+  | 0, _ => decide
+  | 1, _ => decide
+
+/-- UNREACHABILITY of core.go FetchMessage's `panic("ERROR: hdr_len > 24 …")` under c.Mutex (whitelisted in
+    the lock scan). The loop runs while hdr_len < 24, reads into the slice `hdr[hdr_len:24]` and adds the
+    returned count n to hdr_len. ASSUMPTION (the net.Conn.Read contract, through common.SockRead which
+    only shortens the buffer): 0 ≤ n ≤ len(buf) = 24 - hdr_len. Then hdr_len never exceeds 24. -/
+theorem fetch_hdrlen_panic_unreachable (hdrLen n : Nat) (h : hdrLen < 24) (hn : n ≤ 24 - hdrLen) :
+    ¬ (hdrLen + n > 24) := by omega
+
+example : ∃ hdrLen n : Nat, hdrLen < 24 ∧ n ≤ 24 - hdrLen ∧ hdrLen + n = 24 := ⟨20, 4, by decide⟩
 
 /-- ProcessBlockTxn transaction loop: total, terminates within the payload. -/
 theorem blocktxn_total (txSize : Bytes → Nat) (hts : ∀ b, txSize b ≤ b.length) (pl : Bytes) (hl : pl.length < 2^62) :
@@ -92,7 +167,6 @@ def wInv : Bytes := [0xff, 1, 0, 0, 0, 0, 0, 0, 0x40] ++ List.replicate 36 0
 /-- cnt = 0x0e38e38e38e38e3a: 36·cnt ≡ 40 (mod 2^64) (what the harness computes as wrapCount 36 40) -/
 def wInvLocked : Bytes := [0xff, 0x3a, 0x8e, 0xe3, 0x38, 0x8e, 0xe3, 0x38, 0x0e] ++ List.replicate 40 0
 def wGbt : Bytes := List.replicate 32 0xab ++ [1, 0xff, 0, 0, 0, 0, 0, 0, 0, 0x80]
-def tenOrNothing (b : Bytes) : Nat := if 10 ≤ b.length then 10 else 0
 def wCmpct : Bytes := List.replicate 88 0 ++ [0, 2, 1] ++ List.replicate 10 9 ++ [1] ++ List.replicate 10 9
 def wFetch : Bytes := [0xf9, 0xbe, 0xb4, 0xd9] ++ [0x76] ++ List.replicate 11 0 ++ [10, 0, 0, 0x80] ++ List.replicate 4 0
 def fenv : FetchEnv := ⟨[0xf9, 0xbe, 0xb4, 0xd9], fun _ => 1024, fun _ => [0, 0, 0, 0], false, false⟩
@@ -137,28 +211,39 @@ theorem witnesses_now_rejected :
 
 /-- the source facts the model relies on are the ones regenerated from the current source in this
     run: skeletons (guards, index / slice expressions, Lock / Unlock / return, decoder and penalty
-    calls) of the handlers repaired by C18's fixes, Run's command table and gate. (All 24 lists
+    calls) of the handlers repaired by C18's fixes, Run's command table and gate, Run's inline `authack` case. (All 24 lists
     are compared in Model/NetParseFacts.lean, which this module imports.) -/
 theorem source_facts_current :
     Gen.NetFacts.HandleVersion = Expected.HandleVersion ∧ Gen.NetFacts.ProcessInv = Expected.ProcessInv ∧
     Gen.NetFacts.ProcessGetBlockTxn = Expected.ProcessGetBlockTxn ∧
     Gen.NetFacts.ProcessCmpctBlock = Expected.ProcessCmpctBlock ∧
     Gen.NetFacts.ProcessBlockTxn = Expected.ProcessBlockTxn ∧ Gen.NetFacts.FetchMessage = Expected.FetchMessage ∧
-    Gen.NetFacts.dispatch = Expected.dispatch ∧ Gen.NetFacts.runGate = Expected.runGate :=
+    Gen.NetFacts.dispatch = Expected.dispatch ∧ Gen.NetFacts.runGate = Expected.runGate ∧
+    Gen.NetFacts.inline_authack = Expected.inline_authack :=
   ⟨facts_HandleVersion, facts_ProcessInv, facts_ProcessGetBlockTxn, facts_ProcessCmpctBlock, facts_ProcessBlockTxn,
-   facts_FetchMessage, facts_dispatch, facts_runGate⟩
+   facts_FetchMessage, facts_dispatch, facts_runGate, facts_inline_authack⟩
 
-/-- the linear forms of the blocktxn / cmpctblock loops that the compiled oracle runs (`@[csimp]` in
-    Model/NetParse.lean: the unread rest of the payload is carried along instead of `pl.drop offs`
-    per element) compute exactly the functions the theorems above are about. -/
-theorem fast_loops_agree (fixed : Bool) (txSize : Bytes → Nat) (pl : Bytes) (n total : Int) (k : Nat) (offs exp : Int)
-    (seen : List Bytes) (acc : List Nat) (st : Nat) :
+/-- WHAT THE COMPILER IS TOLD. The four `@[csimp]` lemmas of Model/NetParse.lean make the compiled oracle run
+    the linear `…Fast` forms (the unread rest of the payload is carried along instead of `pl.drop offs` per
+    element) in place of the loops the theorems above are about. This theorem IS the conjunction of those
+    four csimp statements, proved by the csimp lemmas themselves, so the axiom audit of Props.C18 covers
+    exactly the equalities the compiler trusts. -/
+theorem fast_loops_agree :
+    @shortIdLoop = @shortIdLoopFast ∧ @prefilledLoop = @prefilledLoopFast ∧
+    @blockTxnLoop = @blockTxnLoopFast ∧ @secondPass = @secondPassFast :=
+  ⟨shortIdLoop_eq_fast, prefilledLoop_eq_fast, blockTxnLoop_eq_fast, secondPass_eq_fast⟩
+
+/-- the same pointwise, with the `…Fast` forms unfolded to the rest-carrying loops -/
+theorem fast_loops_agree_pointwise (fixed : Bool) (txSize : Bytes → Nat) (pl : Bytes) (n total : Int) (k : Nat) (offs exp : Int)
+    (seen : List Bytes) (acc : List Nat) (sl : List Bool) (st : Nat) :
     blockTxnLoop txSize pl n k offs acc st = blockTxnLoopR txSize n k (pl.drop offs.toNat) offs acc st ∧
     shortIdLoop pl n k offs seen st = shortIdLoopR n k (pl.drop offs.toNat) offs seen st ∧
     prefilledLoop fixed txSize pl n total k offs exp acc st =
-      prefilledLoopR fixed txSize pl n total k (pl.drop offs.toNat) offs exp acc st :=
-  ⟨blockTxnLoop_eq_R txSize pl n k offs acc st, shortIdLoop_eq_R pl n k offs seen st,
-   prefilledLoop_eq_R fixed txSize pl n total k offs exp acc st⟩
+      prefilledLoopR fixed txSize pl n total k (pl.drop offs.toNat) offs exp acc st ∧
+    secondPass pl n seen sl offs st = secondPassR n seen sl (pl.drop offs.toNat) offs st := by
+  obtain ⟨h1, h2, h3, h4⟩ := fast_loops_agree
+  rw [h1, h2, h3, h4]
+  exact ⟨rfl, rfl, rfl, rfl⟩
 
 /-- LOCK DISCIPLINE of the current source. gen_c18 reduces every function of the ten client/network
     files the property anchors (≈ 95 functions: all message handlers, Run, Tick, SendRawMsg, SendInvs,
@@ -172,6 +257,20 @@ theorem fast_loops_agree (fixed : Bool) (txSize : Bytes → Nat) (pl : Bytes) (n
     its lock. (Per function and path-insensitive; beyond that one level, locks taken inside callees are
     not followed.) -/
 theorem lock_discipline_current : NetParse.Locks.complaints Gen.NetFacts.lockTraces = [] := by decide +kernel
+
+/-- what the whitelist `NetParseLocks.panicUnreachable` hides from the previous theorem, exactly: the
+    UNFILTERED scan of the current source has two complaints, both an explicit panic between a Lock and its
+    non-deferred Unlock, and the whitelist names for each the theorem above that proves it unreachable
+    (`cmpctblock_panic_unreachable` with `cmpctblock_total`; `fetch_hdrlen_panic_unreachable`, which assumes
+    the net.Conn.Read contract). -/
+theorem explicit_panics_under_lock :
+    NetParse.Locks.complaintsRaw Gen.NetFacts.lockTraces =
+      ["OneConnection.ProcessCmpctBlock: panic with txpool.TxMutex held",
+       "OneConnection.FetchMessage: panic with c.Mutex held"] ∧
+    NetParse.Locks.panicUnreachable =
+      [("OneConnection.ProcessCmpctBlock", "txpool.TxMutex", "GocoinV.Props.C18.cmpctblock_panic_unreachable"),
+       ("OneConnection.FetchMessage", "c.Mutex", "GocoinV.Props.C18.fetch_hdrlen_panic_unreachable")] := by
+  decide +kernel
 
 /-- the shared accesses the traces are known to contain (so that a renamed field cannot silently
     empty the list the previous theorem speaks about) -/
@@ -199,7 +298,10 @@ theorem call_locks_tracked :
     processGetData's InvStore, and rejects `continue` with the peers-database lock held, InvStore
     outside c.Mutex, a return between Lock and Unlock, and - with every exit covered by a deferred
     Unlock - a call of a function that locks the held mutex again (accepted when the mutex was released
-    before the call, as SendRawMsg's overflow path does). -/
+    before the call, as SendRawMsg's overflow path does); it rejects an explicit panic between Lock and a
+    non-deferred Unlock and accepts it when the Unlock is deferred; and the whitelist removes one complaint
+    of the named function only (a second panic under the same lock, or the same shape in another function,
+    is still reported). -/
 theorem lock_scan_discriminates :
     NetParse.Locks.scanFrom [] NetParse.Locks.shapeGoto = [] ∧
     NetParse.Locks.scanFrom [] NetParse.Locks.shapeContinue = ["continue with a changed lock set: peersdb held"] ∧
@@ -208,11 +310,19 @@ theorem lock_scan_discriminates :
     NetParse.Locks.scanFrom [] NetParse.Locks.shapeReturnHeld = ["return with c.Mutex held"] ∧
     NetParse.Locks.scanFrom [] NetParse.Locks.shapeCallUnlocked = [] ∧
     NetParse.Locks.scanFrom [] NetParse.Locks.shapeCallDeferred =
-      ["call of a function that locks c.Mutex while it is held"] := by decide +kernel
+      ["call of a function that locks c.Mutex while it is held"] ∧
+    NetParse.Locks.scanFrom [] NetParse.Locks.shapePanicHeld = ["panic with TxMutex held"] ∧
+    NetParse.Locks.scanFrom [] NetParse.Locks.shapePanicDeferred = [] ∧
+    NetParse.Locks.dropProved "OneConnection.ProcessCmpctBlock"
+      ["panic with txpool.TxMutex held", "panic with txpool.TxMutex held", "panic with c.Mutex held"] =
+      ["panic with txpool.TxMutex held", "panic with c.Mutex held"] ∧
+    NetParse.Locks.dropProved "OneConnection.ProcessBlockTxn" ["panic with txpool.TxMutex held"] =
+      ["panic with txpool.TxMutex held"] := by decide +kernel
 
 -- OPEN (not modelled, hence not stated): "whole handler" totality including the backend —
--- ProcessNewHeader / PostCheckBlock / mempool matching / peer database; and the send-buffer
--- pause path of processGetData. The statement above is about the parsing layer only.
+-- ProcessNewHeader / PostCheckBlock / mempool matching (incl. ProcessCmpctBlock's two "Same short ID - abort"
+-- returns between the prefilled loop and the second pass) / peer database; and the send-buffer
+-- pause path of processGetData (the loop that STARTS a pause; appending to a pending buffer is modelled). The statement above is about the parsing layer only.
 -- OPEN: lock ORDER between functions (deadlock freedom across threads) and freedom from data races on
 -- fields other than the ones gen_c18 tags as shared accesses; the lock scan is per function and
 -- path-insensitive, and follows calls ONE level (a direct callee that locks a mutex its caller holds);
